@@ -64,6 +64,7 @@ type Explorer struct {
 	nextID    int
 	Steps     int
 	NPaths    int
+	noise     *noise // optional concurrent traffic through the same application instance (C07)
 	W2        *World // optional second application instance (another "process"): C07 compares its results too
 	Pairs     map[string]struct{} // distinct (pre-state line, action) pairs are trivially all; kept for distinct (act kind, ok) classes
 }
@@ -111,6 +112,9 @@ func (e *Explorer) apply(pre *Snapshot, parent int, a Action) (*Snapshot, int, e
 		post := &Snapshot{Height: pre.Height + a.Gap, Stores: pre.Stores}
 		id, err := e.emit(parent, a, TxResult{OK: true}, e.W.Ctx(post), nil, pre, post)
 		return post, id, err
+	}
+	if e.noise != nil {
+		e.noise.offer(pre)
 	}
 	reps := e.Reps
 	if a.Act == "SignAttributes" || a.Act == "DeleteAttributes" {
@@ -236,6 +240,7 @@ type Options struct {
 	PathFile  string
 	NPaths    int
 	SecondApp bool
+	Noise     bool // run unrelated transactions concurrently on other branches of the same application instance
 	RoundTrips int // number of states at which the genesis export/import round trip is recorded
 }
 
@@ -352,6 +357,10 @@ func Explore(w *World, out *vcommon.Writer, o Options) (*Explorer, error) {
 	}
 	root.needed = true
 	e := &Explorer{NPaths: npaths, W: w, Out: out, Alphabet: o.Alphabet, Reps: o.Reps, RepsAudit: o.RepsAudit, MaxHeight: o.MaxHeight, Pairs: map[string]struct{}{}}
+	if o.Noise && len(o.Alphabet) > 0 {
+		e.noise = startNoise(w, o.Alphabet, o.Seed)
+		defer e.noise.stop()
+	}
 	if o.SecondApp {
 		w2, err := NewWorld(w.Cfg)
 		if err != nil {
